@@ -7,6 +7,7 @@ import (
 	"go/importer"
 	"io"
 	"os"
+	"regexp"
 	"go/parser"
 	"go/token"
 	"go/types"
@@ -94,6 +95,7 @@ type Checked struct {
 	src     *types.Package // the source package as seen from the destination
 	inPlace bool
 	errs    []string
+	errPos  []token.Pos
 }
 
 // destination decides where the property says the output lives.
@@ -117,8 +119,13 @@ func typeCheck(job JobCfg, out string, exclude string) (*Checked, string) {
 	conf := types.Config{
 		Importer: si.imp,
 		Error: func(err error) {
-			if len(c.errs) < 4 {
+			if len(c.errs) < 6 {
 				c.errs = append(c.errs, err.Error())
+				if te, ok := err.(types.Error); ok {
+					c.errPos = append(c.errPos, te.Pos)
+				} else {
+					c.errPos = append(c.errPos, token.NoPos)
+				}
 			}
 		},
 	}
@@ -303,33 +310,39 @@ func checkImplements(job JobCfg, c *Checked) map[string]string {
 		if !types.Implements(ptr, iface) && !types.Satisfies(ptr, iface) {
 			add("C02", "*"+mk+" does not implement "+in)
 		}
-		// C08: reset methods exist exactly when asked for
-		var resets []string
-		for i := 0; i < mset.Len(); i++ {
-			n := mset.At(i).Obj().Name()
-			if strings.HasPrefix(n, "Reset") && strings.HasSuffix(n, "Calls") {
-				isIfaceMethod := false
-				for k := 0; k < iface.NumMethods(); k++ {
-					if iface.Method(k).Name() == n {
-						isIfaceMethod = true
-					}
-				}
-				if !isIfaceMethod {
-					resets = append(resets, n)
-				}
+		// C08: the method set of *Mock is exactly the interface methods, one accessor per method and,
+		// with -with-resets only, one reset per method plus ResetCalls
+		want := map[string]string{}
+		for i := 0; i < iface.NumMethods(); i++ {
+			n := iface.Method(i).Name()
+			want[n] = "method"
+			want[n+"Calls"] = "accessor"
+			if job.WithResets {
+				want["Reset"+n+"Calls"] = "reset"
 			}
 		}
-		sort.Strings(resets)
-		var wantResets []string
 		if job.WithResets {
-			wantResets = append(wantResets, "ResetCalls")
-			for i := 0; i < iface.NumMethods(); i++ {
-				wantResets = append(wantResets, "Reset"+iface.Method(i).Name()+"Calls")
-			}
-			sort.Strings(wantResets)
+			want["ResetCalls"] = "reset"
 		}
-		if strings.Join(resets, ",") != strings.Join(wantResets, ",") {
-			add("C08", fmt.Sprintf("%s has reset methods %v, expected %v", mk, resets, wantResets))
+		have := map[string]bool{}
+		for i := 0; i < mset.Len(); i++ {
+			have[mset.At(i).Obj().Name()] = true
+		}
+		var missing, extra []string
+		for n, kind := range want {
+			if !have[n] && kind == "reset" {
+				missing = append(missing, n)
+			}
+		}
+		for n := range have {
+			if _, ok := want[n]; !ok {
+				extra = append(extra, n)
+			}
+		}
+		sort.Strings(missing)
+		sort.Strings(extra)
+		if len(missing) > 0 || len(extra) > 0 {
+			add("C08", fmt.Sprintf("%s (with-resets=%v): missing reset methods %v, unexpected methods %v", mk, job.WithResets, missing, extra))
 		}
 		// every method has its Calls accessor
 		for i := 0; i < iface.NumMethods(); i++ {
@@ -558,4 +571,101 @@ func checkSolo(job JobCfg, joint *Checked) string {
 		}
 	}
 	return ""
+}
+
+// classify attributes the type errors of the generated file to properties by where they are:
+// inside a method or the mock struct (names: C12), on the self-check line (C02; C09 for generic
+// interfaces; C10 when the source package is imported into itself), in the import block (C11).
+func classify(c *Checked, generic bool) map[string]string {
+	res := map[string]string{}
+	add := func(k, v string) {
+		if res[k] == "" {
+			res[k] = v
+		}
+	}
+	for i, msg := range c.errs {
+		if strings.Contains(msg, "imports its own package") {
+			add("C10", msg)
+			continue
+		}
+		if i >= len(c.errPos) || !c.errPos[i].IsValid() {
+			continue
+		}
+		pos := c.errPos[i]
+		if pos < c.file.Pos() || pos > c.file.End() {
+			continue // error reported in a source file (e.g. "other declaration of")
+		}
+		for _, d := range c.file.Decls {
+			if pos < d.Pos() || pos > d.End() {
+				continue
+			}
+			switch d := d.(type) {
+			case *ast.FuncDecl:
+				if nameClash.MatchString(msg) {
+					add("C12", msg)
+				}
+			case *ast.GenDecl:
+				switch d.Tok {
+				case token.IMPORT:
+					add("C11", msg)
+				case token.VAR:
+					if generic {
+						add("C09", msg)
+					} else {
+						add("C02", msg)
+					}
+				case token.TYPE:
+					if strings.Contains(msg, "redeclared") || strings.Contains(msg, "duplicate") {
+						add("C12", msg)
+					} else if generic {
+						add("C09", msg)
+					}
+				}
+			}
+		}
+	}
+	return res
+}
+
+var nameClash = regexp.MustCompile(`redeclared|duplicate (argument|field)|is not a type|not a package|no new variables|declared and not used|mismatched types|cannot use .* as .* value`)
+
+var identRe = regexp.MustCompile(`^[A-Za-z_][A-Za-z0-9_]*$`)
+
+// checkImportAliases looks at the import block of the unformatted output: an alias that is
+// not an identifier makes the file unparsable (C11).
+func checkImportAliases(noop string) string {
+	i := strings.Index(noop, "import (")
+	if i < 0 {
+		return ""
+	}
+	j := strings.Index(noop[i:], "\n)")
+	if j < 0 {
+		return ""
+	}
+	for _, line := range strings.Split(noop[i+len("import ("):i+j], "\n") {
+		line = strings.TrimSpace(line)
+		if line == "" || strings.HasPrefix(line, `"`) {
+			continue
+		}
+		alias := strings.Fields(line)[0]
+		if !identRe.MatchString(alias) || token.IsKeyword(alias) {
+			return "import alias " + alias + " is not a valid identifier"
+		}
+	}
+	return ""
+}
+
+func anyGeneric(job JobCfg, src *types.Package) bool {
+	if src == nil {
+		return false
+	}
+	for _, a := range job.Args {
+		in, _ := splitArg(a)
+		if o := src.Scope().Lookup(in); o != nil {
+			if n, ok := o.Type().(*types.Named); ok && n.TypeParams() != nil && n.TypeParams().Len() > 0 {
+				return true
+			}
+		}
+	}
+	return false
 }
